@@ -431,7 +431,7 @@ func init() {
 	core.Register(&core.Check{
 		ID:          "C18",
 		Level:       "fault_enumeration",
-		Rule:        "for each (previous state, new state) pair a child process chdir's into a fresh scratch directory holding the previous ./.gr, runs the real repl.AutoLoad, evaluates the script producing the new state and calls the real repl.AutoSave; the crash points hit by a clean run are discovered through the build-tag hook log, then one child per crash point is killed with a real SIGKILL at that point (no deferred code, no flush) and one child per binding gets an injected write failure; thorough adds SIGKILL / ENOSPC at every file-syscall boundary via strace fault injection. Oracle: ./.gr afterwards is byte-identical to the previous or to the new file (both known from clean runs) and a second child's AutoLoad restores exactly one of the two states; an injected failure is returned by AutoSave and leaves the previous file untouched; an unchanged state does not rewrite the file; a later clean session started in the same directory (which adds one binding) leaves exactly the file it leaves when started from that legal state in a clean directory (leftovers of the interrupted save do not leak into later saves). Non-trivial = every (pair, point).",
+		Rule:        "for each (previous state, new state) pair a child process chdir's into a fresh scratch directory holding the previous ./.gr, runs the real repl.AutoLoad, evaluates the script producing the new state and calls the real repl.AutoSave; the crash points hit by a clean run are discovered through the build-tag hook log, then one child per crash point is killed with a real SIGKILL at that point (no deferred code, no flush) and one child per binding gets an injected write failure; thorough adds SIGKILL / ENOSPC at every file-syscall boundary via strace fault injection. Oracle: ./.gr afterwards is byte-identical to the previous or to the new file (both known from clean runs) and a second child's AutoLoad restores exactly one of the two states; an injected failure is returned by AutoSave and leaves the previous file untouched; an unchanged state does not rewrite the file; a later clean session started in the same directory (which adds one binding) leaves exactly the file it leaves when started from that legal state in a clean directory (leftovers of the interrupted save do not leak into later saves). Non-trivial = every (pair, point). Real write failures (EFBIG through the process file-size limit) at byte positions of the new file; the previous ./.gr also as a symbolic link to a file kept elsewhere.",
 		Assume:      []string{"process death only (the property does not claim durability across power loss: there is no fsync before the rename)", "leftover .grol*.tmp files are allowed"},
 		QuickCap:    100 * time.Second,
 		ThoroughCap: 20 * time.Minute,
